@@ -37,6 +37,8 @@ ASSUMPTIONS = [
 ]
 
 MiB = 2 ** 20
+CASE_TIMEOUT_S = 40      # a normal case takes well under 2 s
+MAX_CASE_TIMEOUTS = 4
 ADDR = 'bQEaw42GXsgCAGio1nxFncJSyRmnztSCjP'
 CONNECT_T, DOWNLOAD_T = 2.0, 3.0
 IDLE_T, TRANSFER_T = 30.0, 60.0
@@ -184,9 +186,10 @@ def frag_strategy(max_size):
 
 def honest_strategy(tier):
     big = 65536 if tier == "quick" else 2 * MiB
-    sizes = st.one_of(st.integers(1, 300), st.integers(1, 70000),
+    # the largest legal blob (2 MiB) and its neighbour also occur in the quick tier (delivered in coarse fragments)
+    sizes = st.one_of(st.integers(1, 300), st.integers(1, 300), st.integers(1, 70000), st.integers(1, 70000),
                       st.sampled_from([1, 2, 4095, 4096, 4097, 65535, 65536, big - 1, big] if tier != "quick"
-                                      else [1, 2, 4095, 4096, 4097, 65535, 65536]))
+                                      else [1, 2, 4095, 4096, 4097, 65535, 65536, 65536, 2 * MiB - 1, 2 * MiB]))
     blob = st.fixed_dictionaries({
         "kind": st.sampled_from(["random", "random", "zeros", "json_prefix", "json_prefix", "braces"]),
         "size": sizes, "seed": st.integers(0, 10 ** 6), "prefix_idx": st.integers(0, len(JSON_PREFIXES) - 1)})
@@ -221,6 +224,12 @@ async def honest_async(case, out, loop):
         server.connection_made(ts)
         client.connection_made(tc)
         c2s, s2c = Frag(case["c2s"]), Frag(case["s2c"])
+        if max(len(c) for _, c in contents) > 262144:
+            # megabyte bodies: coarse body fragments (the header region is still split where split_k asks)
+            s2c = Frag([max(x, 65536) if x else 0 for x in case["s2c"]])
+            out.label("size>256KiB")
+        if any(len(c) == 2 * MiB for _, c in contents):
+            out.label("size=2MiB")
         state = {"hdr_remaining": None, "boundary_inside": False, "boundary_at_end": False, "frags": 0, "await_hdr": True}
         offs = {"c": 0, "s": 0}     # read offsets into tc.out / ts.out (avoids O(n^2) deletes with 1-byte fragments)
 
@@ -825,7 +834,8 @@ def _run(fn, case):
 
 PARTS = [
     Part("honest", honest_strategy, lambda c: _run(honest_async, c), 250, 1200, quick_shards=6, thorough_shards=16,
-         essential=("boundary_inside", "boundary_at_frag_end", "split_exactly_at_header_end", "content:json_prefix", "repeat_request")),
+         essential=("boundary_inside", "boundary_at_frag_end", "split_exactly_at_header_end", "content:json_prefix", "repeat_request",
+                    "size=2MiB")),
     Part("server", server_strategy, lambda c: _run(server_async, c), 300, 1500, quick_shards=4, thorough_shards=16,
          essential=tuple("req:" + k for k in sorted(set(REQ_KINDS)))),
     Part("client", client_strategy, lambda c: _run(client_async, c), 300, 1500, quick_shards=6, thorough_shards=16,
